@@ -2,6 +2,7 @@ import FranzVerif.Model.Txn
 import FranzVerif.Proof.Txn
 import FranzVerif.Proof.TxnInv
 import FranzVerif.Proof.TxnLost
+import FranzVerif.Proof.TxnOffsets
 /-! C11 — transaction end results are truthful. Theorems over ALL accepted histories of `Model.Txn`;
 the tie is the history correspondence of the `txn` scenarios.
 
@@ -207,5 +208,353 @@ example : accepts
 example : accepts
     [.begin_ 1 true, .produce 1 1 0, .promise 1 true 0 0, .endStart 1 true, .endDone 1 true true,
      .visible 0 0 1, .visible 0 1 7, .quiesce] = false := by decide
+
+end Props.C11
+
+/-! ## The offsets half: "…the transaction's records **and offsets** are committed", GroupTransactSession.End
+
+Theorems over ALL accepted histories of `Model.TxnOffsets` (`tofs` scenarios: GroupTransactSession members, the
+group's committed offsets read by a separate plain client right after every End). `single` says that the scenario
+has one member slot, so that nobody else commits offsets of the group (transactions are sequential); what is stated
+for `single = true` only is exactly what needs that.
+
+* a reported commit: the offsets observed right after End are at least (`single`: exactly) what the transaction set
+  out to commit, on every partition it polled from; the coordinator has no open transaction for the id;
+* an observed committed offset (right after any End, or at the end of the scenario) is always an offset that a
+  transaction whose End reported a successful commit set out to commit — so never that of an aborted, failed or
+  never-ended transaction, also not later through another transaction's commit;
+* a reported abort or error (`single`): the observed offsets are those of the previous observation;
+* the output records of the session's transactions: visible ⇒ End reported a commit; reported commit and
+  acknowledged ⇒ visible at the end.
+
+As in the records half, an accepted history contains no effect of an End(TryCommit) that reported an error: the
+monitor refuses that too, under the key of the listed finding when an EndTxn(commit) response was lost. -/
+namespace Props.C11
+open Model.TxnOffsets Proof.TxnOffsets
+
+/-- the result a transaction has at the time of an observation is the only one it has in the whole history -/
+private theorem result_at_split {single : Bool} {h₁ h₂ : List Ev} {ev : Ev} {s s₁ : St}
+    (hacc : run { single := single } (h₁ ++ ev :: h₂) = some s) (h1 : run { single := single } h₁ = some s₁)
+    {t : Nat} {r r' : Res} (hr : resultOf s₁ t = some r) (hr' : (t, r') ∈ resultsOf (h₁ ++ ev :: h₂)) : r = r' := by
+  have hl := links_of_run hacc
+  have hg := good_of_run hacc
+  have hl₁ := links_of_run h1
+  have hm : (t, r) ∈ resultsOf (h₁ ++ ev :: h₂) := by
+    have := resultOf_some hr
+    rw [hl₁.results] at this
+    exact filterMap_mem_left (List.mem_reverse.1 this)
+  have hn : ((resultsOf (h₁ ++ ev :: h₂)).map (·.1)).Nodup := by
+    have := hg.resNodup
+    rw [hl.results, List.map_reverse] at this
+    simpa using nodup_reverse this
+  exact (Prod.mk.inj (eq_of_key_nodup (·.1) hn hm hr' rfl)).2
+
+/-- what a transaction set out to commit is known when its End has returned -/
+private theorem want_at_split {single : Bool} {h₁ h₂ : List Ev} {ev : Ev} {s s₁ : St}
+    (hrun₂ : run (apply s₁ ev) h₂ = some s) (h1 : run { single := single } h₁ = some s₁) (hev : wantEv ev = none)
+    {t p : Nat} {r : Res} {w : Int} (hr : resultOf s₁ t = some r) (hw : (t, p, w) ∈ wantsOf (h₁ ++ ev :: h₂)) :
+    wantOf s₁ t p = some w := by
+  have hl₁ := links_of_run h1
+  have hg₁ := good_of_run h1
+  have hst : t ∈ s₁.started.map (·.1) := hg₁.resStarted _ (resultOf_some hr)
+  have hst' : t ∈ (apply s₁ ev).started.map (·.1) := by
+    rw [started_step, List.map_append]; exact List.mem_append_right _ hst
+  unfold wantsOf at hw
+  rw [List.filterMap_append, List.filterMap_cons, hev] at hw
+  rcases List.mem_append.1 hw with hw | hw
+  · apply wantOf_of_mem hg₁.wantsNodup
+    rw [hl₁.wants]; exact List.mem_reverse.2 hw
+  · exact absurd hw (no_want_after_started h₂ _ _ hrun₂ hst' p w)
+
+/-- When End reports a successful commit, the transaction's offsets are committed: the group's committed offset
+read right after End is, on every partition the transaction polled from, at least the offset it set out to commit. -/
+theorem committed_end_commits_offsets (single : Bool) (h : List Ev) (s : St) (hacc : run { single := single } h = some s)
+    (t p : Nat) (w off : Int) (hr : (t, Res.committed) ∈ resultsOf h) (hw : (t, p, w) ∈ wantsOf h)
+    (ho : (t, p, off) ∈ observationsOf h) : w ≤ off := by
+  obtain ⟨h₁, ev, h₂, rfl, hev⟩ := mem_filterMap_split ho
+  obtain ⟨m, rfl⟩ := obsEv_some hev
+  obtain ⟨s₁, h1, hchk, hrun₂⟩ := run_split hacc
+  obtain ⟨_, r, hres, hc, _⟩ := observe_check hchk
+  have : r = .committed := result_at_split hacc h1 hres hr
+  exact (hc this w (want_at_split hrun₂ h1 rfl hres hw)).1
+
+/-- … and exactly that offset when the scenario has a single member (nobody else commits, and no later transaction
+has run when the offsets are read). -/
+theorem committed_end_commits_offsets_exact (h : List Ev) (s : St) (hacc : run { single := true } h = some s)
+    (t p : Nat) (w off : Int) (hr : (t, Res.committed) ∈ resultsOf h) (hw : (t, p, w) ∈ wantsOf h)
+    (ho : (t, p, off) ∈ observationsOf h) : off = w := by
+  obtain ⟨h₁, ev, h₂, rfl, hev⟩ := mem_filterMap_split ho
+  obtain ⟨m, rfl⟩ := obsEv_some hev
+  obtain ⟨s₁, h1, hchk, hrun₂⟩ := run_split hacc
+  obtain ⟨_, r, hres, hc, _⟩ := observe_check hchk
+  have : r = .committed := result_at_split hacc h1 hres hr
+  exact (hc this w (want_at_split hrun₂ h1 rfl hres hw)).2 (single_run _ _ _ h1)
+
+/-- Every transaction whose End reported a successful commit *was* observed, on every partition it polled from, in a
+complete scenario (so the two theorems above speak about every committed transaction). -/
+theorem committed_transactions_are_observed (single : Bool) (h : List Ev) (s : St)
+    (hacc : run { single := single } (h ++ [Ev.quiesce]) = some s) (hcomplete : isIncomplete h = false)
+    (t p : Nat) (w : Int) (hr : (t, Res.committed) ∈ resultsOf h) (hw : (t, p, w) ∈ wantsOf h) :
+    ∃ off, (t, p, off) ∈ observationsOf h := by
+  obtain ⟨s₁, h1, hchk⟩ := run_snoc hacc
+  have hl := links_of_run h1
+  have hg := good_of_run h1
+  have hres : resultOf s₁ t = some .committed := by
+    apply resultOf_of_mem hg.resNodup
+    rw [hl.results]; exact List.mem_reverse.2 hr
+  obtain ⟨o, ho, e1, e2⟩ := (quiesce_check hchk (by rw [hl.incomplete]; exact hcomplete)).2 (t, p, w)
+    (by rw [hl.wants]; exact List.mem_reverse.2 hw) hres
+  obtain ⟨o1, o2, o3⟩ := o
+  simp only at e1 e2
+  subst e1 e2
+  exact ⟨o3, by rw [hl.obs] at ho; exact List.mem_reverse.1 ho⟩
+
+/-- When End reports a successful commit, the coordinator has no open transaction for the transactional id right
+after End. -/
+theorem committed_end_closes_transaction (single : Bool) (h : List Ev) (s : St) (hacc : run { single := single } h = some s)
+    (t : Nat) (hr : (t, Res.committed) ∈ resultsOf h) : (t, true) ∉ coordsOf h := by
+  intro hc
+  obtain ⟨h₁, ev, h₂, rfl, hev⟩ := mem_filterMap_split hc
+  obtain ⟨m, rfl⟩ := coordEv_some hev
+  obtain ⟨s₁, h1, hchk, _⟩ := run_split hacc
+  obtain ⟨r, hres, hno⟩ := coord_check hchk
+  exact hno rfl (result_at_split hacc h1 hres hr)
+
+/-- Single member: every committed offset observed right after an End is an offset that a transaction whose End
+reported a successful commit set out to commit (or `-1`, nothing committed). Hence never the offset of a transaction
+whose End reported an abort or an error, or that the client never ended — also not later, after other transactions
+committed. -/
+theorem observed_offsets_come_from_committed_transactions (h : List Ev) (s : St) (hacc : run { single := true } h = some s)
+    (t p : Nat) (off : Int) (ho : (t, p, off) ∈ observationsOf h) :
+    off = -1 ∨ ∃ t', (t', p, off) ∈ wantsOf h ∧ (t', Res.committed) ∈ resultsOf h := by
+  obtain ⟨h₁, ev, h₂, rfl, hev⟩ := mem_filterMap_split ho
+  obtain ⟨m, rfl⟩ := obsEv_some hev
+  obtain ⟨s₁, h1, hchk, _⟩ := run_split hacc
+  have hl₁ := links_of_run h1
+  obtain ⟨hj, _⟩ := observe_check hchk
+  rcases justified_iff.1 hj with h0 | ⟨w, hw, e1, e2, hmc⟩
+  · exact Or.inl h0
+  · right
+    obtain ⟨w1, w2, w3⟩ := w
+    simp only at e1 e2 hmc
+    subst e1 e2
+    refine ⟨w1, ?_, ?_⟩
+    · rw [hl₁.wants] at hw; exact filterMap_mem_left (List.mem_reverse.1 hw)
+    · rcases mayCommit_iff.1 hmc with hres | ⟨hs, _⟩
+      · have := resultOf_some hres
+        rw [hl₁.results] at this; exact filterMap_mem_left (List.mem_reverse.1 this)
+      · rw [single_run _ _ _ h1] at hs; cases hs
+
+/-- The same for the group's committed offsets at the end of the scenario. -/
+theorem final_offsets_come_from_committed_transactions (h : List Ev) (s : St) (hacc : run { single := true } h = some s)
+    (p : Nat) (off : Int) (ho : (p, off) ∈ finalsOf h) :
+    off = -1 ∨ ∃ t', (t', p, off) ∈ wantsOf h ∧ (t', Res.committed) ∈ resultsOf h := by
+  obtain ⟨h₁, ev, h₂, rfl, hev⟩ := mem_filterMap_split ho
+  have := finalEv_some hev
+  subst this
+  obtain ⟨s₁, h1, hchk, _⟩ := run_split hacc
+  have hl₁ := links_of_run h1
+  rcases justified_iff.1 (final_check hchk) with h0 | ⟨w, hw, e1, e2, hmc⟩
+  · exact Or.inl h0
+  · right
+    obtain ⟨w1, w2, w3⟩ := w
+    simp only at e1 e2 hmc
+    subst e1 e2
+    refine ⟨w1, ?_, ?_⟩
+    · rw [hl₁.wants] at hw; exact filterMap_mem_left (List.mem_reverse.1 hw)
+    · rcases mayCommit_iff.1 hmc with hres | ⟨hs, _⟩
+      · have := resultOf_some hres
+        rw [hl₁.results] at this; exact filterMap_mem_left (List.mem_reverse.1 this)
+      · rw [single_run _ _ _ h1] at hs; cases hs
+
+/-- Several members. Full statement wanted: as `observed_offsets_come_from_committed_transactions`. Proved: the offset
+was set out to be committed by a transaction that, in the history *before the observation*, either had its End report a
+successful commit, or whose End(TryCommit) call (on another member) had been called and had not returned yet. Missing:
+the second kind is not re-examined when that End later reports an abort or an error (the observation that follows that
+End is checked, not the earlier one). -/
+theorem observed_offsets_come_from_committed_transactions_partial (single : Bool) (h₁ h₂ : List Ev) (s : St)
+    (m t p : Nat) (off : Int) (hacc : run { single := single } (h₁ ++ Ev.observe m t p off :: h₂) = some s) :
+    off = -1 ∨ ∃ t', (t', p, off) ∈ wantsOf h₁ ∧
+      ((t', Res.committed) ∈ resultsOf h₁ ∨ ((t', true) ∈ startsOf h₁ ∧ ∀ r, (t', r) ∉ resultsOf h₁)) := by
+  obtain ⟨s₁, h1, hchk, _⟩ := run_split hacc
+  have hl₁ := links_of_run h1
+  have hg₁ := good_of_run h1
+  obtain ⟨hj, _⟩ := observe_check hchk
+  rcases justified_iff.1 hj with h0 | ⟨w, hw, e1, e2, hmc⟩
+  · exact Or.inl h0
+  · right
+    obtain ⟨w1, w2, w3⟩ := w
+    simp only at e1 e2 hmc
+    subst e1 e2
+    refine ⟨w1, by rw [hl₁.wants] at hw; exact List.mem_reverse.1 hw, ?_⟩
+    rcases mayCommit_iff.1 hmc with hres | ⟨_, hend, hnone⟩
+    · left
+      have := resultOf_some hres
+      rw [hl₁.results] at this; exact List.mem_reverse.1 this
+    · right
+      constructor
+      · have := hg₁.endingStarted _ hend
+        rw [hl₁.started] at this; exact List.mem_reverse.1 this
+      · intro r hr
+        exact resultOf_none hnone r (by rw [hl₁.results]; exact List.mem_reverse.2 hr)
+
+/-- Single member: when End reports an abort, the committed offsets read right after it are unchanged: they are those
+of the previous observation (`-1` when there was none). -/
+theorem aborted_end_leaves_offsets (h₁ h₂ : List Ev) (s : St) (m t p : Nat) (off : Int)
+    (hacc : run { single := true } (h₁ ++ Ev.observe m t p off :: h₂) = some s)
+    (hr : (t, Res.aborted) ∈ resultsOf (h₁ ++ Ev.observe m t p off :: h₂)) : off = lastObserved p h₁ := by
+  obtain ⟨s₁, h1, hchk, _⟩ := run_split hacc
+  obtain ⟨_, r, hres, _, hn⟩ := observe_check hchk
+  have : r = .aborted := result_at_split hacc h1 hres hr
+  subst this
+  rw [← lastOf_eq (links_of_run h1)]
+  exact hn (by intro hc; cases hc) (single_run _ _ _ h1)
+
+/-- Single member: when End reports an error, the committed offsets read right after it (and after the application's
+abort retry) are unchanged. (In an accepted history; the effect of an unconfirmed commit is refused under the key of
+the listed finding.) -/
+theorem failed_end_leaves_offsets (h₁ h₂ : List Ev) (s : St) (m t p : Nat) (off : Int)
+    (hacc : run { single := true } (h₁ ++ Ev.observe m t p off :: h₂) = some s)
+    (hr : (t, Res.error) ∈ resultsOf (h₁ ++ Ev.observe m t p off :: h₂)) : off = lastObserved p h₁ := by
+  obtain ⟨s₁, h1, hchk, _⟩ := run_split hacc
+  obtain ⟨_, r, hres, _, hn⟩ := observe_check hchk
+  have : r = .error := result_at_split hacc h1 hres hr
+  subst this
+  rw [← lastOf_eq (links_of_run h1)]
+  exact hn (by intro hc; cases hc) (single_run _ _ _ h1)
+
+/-- Single member: the offsets of a transaction whose End reported an abort or an error are never committed — when
+such an offset is observed (right after any End), another transaction, whose End reported a successful commit, set
+out to commit the very same offset. -/
+theorem uncommitted_transaction_offsets_never_committed (h : List Ev) (s : St) (hacc : run { single := true } h = some s)
+    (t p : Nat) (w : Int) (r : Res) (hne : r ≠ .committed) (hr : (t, r) ∈ resultsOf h) (_hw : (t, p, w) ∈ wantsOf h)
+    (hpos : w ≠ -1) (u : Nat) (ho : (u, p, w) ∈ observationsOf h) :
+    ∃ t', t' ≠ t ∧ (t', p, w) ∈ wantsOf h ∧ (t', Res.committed) ∈ resultsOf h := by
+  rcases observed_offsets_come_from_committed_transactions h s hacc u p w ho with h0 | ⟨t', h1, h2⟩
+  · exact absurd h0 hpos
+  · refine ⟨t', ?_, h1, h2⟩
+    intro he
+    subst he
+    have hl := links_of_run hacc
+    have hg := good_of_run hacc
+    have hn : ((resultsOf h).map (·.1)).Nodup := by
+      have := hg.resNodup
+      rw [hl.results, List.map_reverse] at this
+      simpa using nodup_reverse this
+    exact hne (Prod.mk.inj (eq_of_key_nodup (·.1) hn hr h2 rfl)).2
+
+/-- Never merged: the offsets of a transaction that the client never ended (the member was restarted inside it) are
+never committed, also not through a later transaction. -/
+theorem unended_transaction_offsets_never_committed (h : List Ev) (s : St) (hacc : run { single := true } h = some s)
+    (t p : Nat) (w : Int) (hr : ∀ r, (t, r) ∉ resultsOf h) (_hw : (t, p, w) ∈ wantsOf h)
+    (hpos : w ≠ -1) (u : Nat) (ho : (u, p, w) ∈ observationsOf h) :
+    ∃ t', t' ≠ t ∧ (t', p, w) ∈ wantsOf h ∧ (t', Res.committed) ∈ resultsOf h := by
+  rcases observed_offsets_come_from_committed_transactions h s hacc u p w ho with h0 | ⟨t', h1, h2⟩
+  · exact absurd h0 hpos
+  · exact ⟨t', by intro he; subst he; exact hr _ h2, h1, h2⟩
+
+/-- The records of the session's transactions: a record in the read_committed view was produced by a transaction whose
+End reported a successful commit (so none of an aborted, failed or never-ended transaction is ever visible). -/
+theorem session_visible_records_are_committed (single : Bool) (h : List Ev) (s : St) (hacc : run { single := single } h = some s)
+    (id : Id) (t : Nat) (hp : (id, t) ∈ producedOf h) (hv : id ∈ visibleIds h) : (t, Res.committed) ∈ resultsOf h := by
+  have hl := links_of_run hacc
+  have hg := good_of_run hacc
+  obtain ⟨t', h1, h2⟩ := hg.visOk id (by rw [hl.vis]; exact List.mem_reverse.2 hv)
+  have hp' : (id, t) ∈ s.recs := by rw [hl.recs]; exact List.mem_reverse.2 hp
+  have := (Prod.mk.inj (eq_of_key_nodup (·.1) hg.recsNodup hp' h1 rfl)).2
+  subst this
+  rw [hl.results] at h2; exact List.mem_reverse.1 h2
+
+/-- … and every acknowledged record of a transaction whose End reported a successful commit is in the read_committed
+view at the end. -/
+theorem session_committed_records_visible (single : Bool) (h : List Ev) (s : St)
+    (hacc : run { single := single } (h ++ [Ev.quiesce]) = some s) (hcomplete : isIncomplete h = false)
+    (id : Id) (t : Nat) (hp : (id, t) ∈ producedOf h) (ha : id ∈ ackedOf h) (hr : (t, Res.committed) ∈ resultsOf h) :
+    id ∈ visibleIds h := by
+  obtain ⟨s₁, h1, hchk⟩ := run_snoc hacc
+  have hl := links_of_run h1
+  have hg := good_of_run h1
+  have hres : resultOf s₁ t = some .committed := by
+    apply resultOf_of_mem hg.resNodup
+    rw [hl.results]; exact List.mem_reverse.2 hr
+  have := (quiesce_check hchk (by rw [hl.incomplete]; exact hcomplete)).1 (id, t)
+    (by rw [hl.recs]; exact List.mem_reverse.2 hp) (by rw [hl.acked]; exact List.mem_reverse.2 ha) hres
+  rw [hl.vis] at this; exact List.mem_reverse.1 this
+
+/-! ### non-vacuity (offsets half) -/
+
+/-- One member, input partitions 0 and 1. Transaction 1 only consumes (polled partition 0 up to offset 2) and End
+reports a commit: offset 3 is observed, the coordinator has nothing open. Transaction 2 (polled both partitions,
+produced record 1) is aborted: the observed offsets are unchanged. Transaction 3's End(TryCommit) reports an error (its
+EndTxn was cut before the broker saw it); the application retries as an abort; offsets unchanged both times. The member
+is restarted inside transaction 4 (never ended). Transaction 5 re-polls, produces records 2 and 3 and commits: offsets
+6 and 2 are observed. At the end the group's offsets are 6 and 2 and the read_committed view holds records 2 and 3. -/
+private def sample : List Ev :=
+  [.memberStart 1 0,
+   .begin_ 1 1 true, .want 1 0 3, .endStart 1 1 true, .endDone 1 1 .committed,
+   .observe 1 1 0 3, .observe 1 1 1 (-1), .coord 1 1 false,
+   .begin_ 1 2 true, .want 2 0 5, .want 2 1 2, .produce 2 1, .endStart 1 2 false, .promise 1 false, .endDone 1 2 .aborted,
+   .observe 1 2 0 3, .observe 1 2 1 (-1), .coord 1 2 false,
+   .begin_ 1 3 true, .want 3 0 4, .endStart 1 3 true, .fault 26 1 3 true, .endDone 1 3 .error,
+   .observe 1 3 0 3, .observe 1 3 1 (-1), .coord 1 3 true, .retry 1 3 .aborted, .observe 1 3 0 3, .observe 1 3 1 (-1),
+   .begin_ 1 4 true, .want 4 0 5, .memberKill 1 4, .memberStop 1, .memberStart 2 0,
+   .begin_ 2 5 true, .want 5 0 6, .want 5 1 2, .produce 5 2, .produce 5 3, .endStart 2 5 true, .promise 2 true, .promise 3 true,
+   .endDone 2 5 .committed, .observe 2 5 0 6, .observe 2 5 1 2, .coord 2 5 false, .memberStop 2,
+   .final 0 6, .final 1 2, .output 0 0 2, .output 1 0 3]
+
+example : accepts true (sample ++ [.quiesce]) = true := by decide
+
+/-- The observables of that history: the hypotheses of every theorem above are met by it. -/
+example :
+    wantsOf sample = [(1, 0, 3), (2, 0, 5), (2, 1, 2), (3, 0, 4), (4, 0, 5), (5, 0, 6), (5, 1, 2)] ∧
+    resultsOf sample = [(1, .committed), (2, .aborted), (3, .error), (5, .committed)] ∧
+    observationsOf sample = [(1, 0, 3), (1, 1, -1), (2, 0, 3), (2, 1, -1), (3, 0, 3), (3, 1, -1), (3, 0, 3), (3, 1, -1),
+      (5, 0, 6), (5, 1, 2)] ∧
+    finalsOf sample = [(0, 6), (1, 2)] ∧ coordsOf sample = [(1, false), (2, false), (3, true), (5, false)] ∧
+    producedOf sample = [(1, 2), (2, 5), (3, 5)] ∧ ackedOf sample = [2, 3] ∧ visibleIds sample = [2, 3] ∧
+    isIncomplete sample = false := by decide
+
+/-- The defect class of the gap: a transaction that only consumed, End reports a commit, but the group's offset did not
+move (no EndTxn was sent; the offsets sit in an open transaction): refused, whether or not the coordinator state is read. -/
+example : (run { single := true }
+    [.begin_ 1 1 true, .want 1 0 3, .endStart 1 1 true, .endDone 1 1 .committed]).bind
+      (fun s => check s (.observe 1 1 0 (-1))) = some "C11.committed-offsets-not-committed" := by decide
+example : (run { single := true }
+    [.begin_ 1 1 true, .want 1 0 3, .endStart 1 1 true, .endDone 1 1 .committed]).bind
+      (fun s => check s (.coord 1 1 true)) = some "C11.committed-end-left-transaction-open" := by decide
+/-- … also with two members (at least the offset). -/
+example : accepts false
+    [.begin_ 1 1 true, .want 1 0 3, .endStart 1 1 true, .endDone 1 1 .committed, .observe 1 1 0 (-1)] = false := by decide
+
+/-- The offsets of an aborted transaction that ride along with the next transaction's commit (transaction 2 polled
+partition 1 only, yet partition 0 moves to what the aborted transaction 1 set out to commit): refused. -/
+example : (run { single := true }
+    [.begin_ 1 1 true, .want 1 0 3, .endStart 1 1 false, .endDone 1 1 .aborted, .observe 1 1 0 (-1), .observe 1 1 1 (-1),
+     .begin_ 1 2 true, .want 2 1 4, .endStart 1 2 true, .endDone 1 2 .committed]).bind
+      (fun s => check s (.observe 1 2 0 3)) = some "C11.aborted-transaction-offsets-committed" := by decide
+/-- The offsets of a transaction the client never ended, committed through a later transaction (merged): refused. -/
+example : (run { single := true }
+    [.begin_ 1 1 true, .want 1 0 3, .memberKill 1 1,
+     .begin_ 2 2 true, .want 2 1 4, .endStart 2 2 true, .endDone 2 2 .committed]).bind
+      (fun s => check s (.observe 2 2 0 3)) = some "C11.unended-transaction-offsets-committed" := by decide
+/-- End(TryCommit) reported an error and the offsets are committed: the listed finding when an EndTxn(commit) of the call
+was handled and its response lost, a violation of its own otherwise. -/
+example : (run { single := true }
+    [.begin_ 1 1 true, .want 1 0 3, .endStart 1 1 true, .fault 26 2 1 true, .endDone 1 1 .error]).bind
+      (fun s => check s (.observe 1 1 0 3)) = some "C11.unconfirmed-commit-took-effect" := by decide
+example : (run { single := true }
+    [.begin_ 1 1 true, .want 1 0 3, .endStart 1 1 true, .fault 26 1 1 true, .endDone 1 1 .error]).bind
+      (fun s => check s (.observe 1 1 0 3)) = some "C11.failed-commit-offsets-committed" := by decide
+/-- An abort after which the committed offset changed (single member), a record of an aborted session transaction in the
+read_committed view, a committed acknowledged record missing from it: refused. -/
+example : accepts true
+    [.begin_ 1 1 true, .want 1 0 3, .endStart 1 1 true, .endDone 1 1 .committed, .observe 1 1 0 3,
+     .begin_ 1 2 true, .want 2 0 5, .endStart 1 2 false, .endDone 1 2 .aborted, .observe 1 2 0 (-1)] = false := by decide
+example : accepts true
+    [.begin_ 1 1 true, .want 1 0 3, .produce 1 7, .promise 7 true, .endStart 1 1 false, .endDone 1 1 .aborted,
+     .observe 1 1 0 (-1), .output 0 0 7] = false := by decide
+example : accepts true
+    [.begin_ 1 1 true, .want 1 0 3, .produce 1 7, .promise 7 true, .endStart 1 1 true, .endDone 1 1 .committed,
+     .observe 1 1 0 3, .quiesce] = false := by decide
 
 end Props.C11
